@@ -218,7 +218,32 @@ def fault_case(case):
                             observed=dict(resumed_t=[float(x) for x in a.t[n - 1:]][:6], fresh_t=[float(x) for x in fresh.t][:6]), expected="bit-identical rows")
             if cfg["dense"]:
                 driver.dense_invariants(r, "C12/dense-after-resume/%s/%s" % (name, site), cs, a, lambda t, y, **kw_: f_plain(t, y), dtype, richardson=rich, rtol_rich=50 * cfg["tol"])
-        # ---- reset restores a pristine system
+        # ---- reset() directly after the fault, without resuming first (a separate execution of the same plan): always when the fault hit
+        #      before the first accepted step (the prefix is just the initial point), on a sub-lattice of positions otherwise
+        if n == 1 or k % 4 == 1:
+            a2, S2, kw2, _, _ = build(cfg)
+            S2.arm({site: {k}}, KINDS[kind])
+            try:
+                a2.integrate(**kw2)
+            except BaseException:       # noqa
+                pass
+            S2.disarm()
+            dt0_abs = abs(float(cfg["dt0"]))
+            a2.reset()
+            if (len(a2) != 1 or a2.t[0] != ref_t[0] or not np.array_equal(a2.y[0], y0) or len(a2.events) != 0 or a2.nfev != 0
+                    or (a2.sol is not None and len(a2.sol.y_interpolants) != 0) or a2.integration_status != "Integration has not been run."
+                    or abs(float(a2.dt)) != dt0_abs):
+                r.v(key("reset-after-fault"), "reset() restores a pristine system after a failure", cs,
+                    observed=dict(rows=len(a2), events=len(a2.events), nfev=int(a2.nfev), dt=float(a2.dt), status=a2.integration_status[:60], prefix_rows=n), expected="pristine (status, counters, dt, storage)")
+            else:
+                try:
+                    a2.integrate(**kw2)
+                    if not (np.array_equal(a2.t, ref_t) and np.array_equal(a2.y, ref_y) and a2.success):
+                        r.v(key("reset-rerun"), "after reset the fault-free run is reproduced and reported as a success", cs,
+                            observed=dict(rows=[len(a2), len(ref_t)], success=bool(a2.success), status=a2.integration_status[:60]), expected="bit-identical rows, success")
+                except BaseException as e3:     # noqa
+                    r.v(key("reset-rerun"), "after reset the system integrates like a fresh one", cs, observed=repr(e3)[:160], expected="completes")
+        # ---- reset restores a pristine system (after the resumed run)
         if k % 3 == 0:
             a.reset()
             if len(a) != 1 or a.t[0] != ref_t[0] or not np.array_equal(a.y[0], y0) or len(a.events) != 0 or a.nfev != 0 or (a.sol is not None and len(a.sol.y_interpolants) != 0) or a.integration_status != "Integration has not been run.":
